@@ -45,8 +45,8 @@ MANIFEST = {
                 "behaves as documented is assumed and compared on every run.  self_append_creates_cycle covers list append/prepend, array "
                 "append and map append with a new key at any path, self_assign_creates_cycle the element assignment forms (v.toList().back() = v, "
                 "map append on an existing key; modelled as clear-then-share, an order that commutes with the code's share-then-clear).  "
-                "`mut v <path> set <temporary containing v>` is refused by the model's precondition although the real code is correct there: "
-                "explored on the implementation against the value reference only (mutx).  "
+                "`mut v <path> set <temporary containing v>` (the temporary is built before the accessor chain) is an accepted line at every path: "
+                "the deep model keeps a copy of v in the spare slot during the walk (selfTempStep), proved and tied like every other line.  "
                 "Lines refused by the model — self-append among them — are skipped on both sides in every 'for all histories' "
                 "statement.  libc parsers atoi/strtoul/atoll/strtoull are Lean definitions of the "
                 "glibc LP64 behaviour.  `refines` is proved for the variable-level model (elements inside payloads by value; below the root it reuses the "
@@ -426,7 +426,7 @@ class Store:
                 if x is None: return False
                 self.v[v] = copy.deepcopy(x)
                 return True
-            if op not in ("mut", "mutx"):
+            if op != "mut":
                 return False
             v = int(t[1])
             path = parse_path(t[2])
@@ -435,7 +435,7 @@ class Store:
             cur = walk(self.v[v], path)
             if lf == "set":
                 a = self.valarg(args)
-                if a is None or (path and v in a[1] and op != "mutx") or a[0][0] == 'n' or cur is None: return False
+                if a is None or a[0][0] == 'n' or cur is None: return False
                 self.replace(v, path, a[0])
                 return True
             if lf in ("assign", "lapp", "lpre", "aapp"):
@@ -654,8 +654,9 @@ def gen_history(rng, length):
             if j < 0.14: leaf = f"set {rand_lit(rng)}"
             elif j < 0.20:
                 kind = rng.choice(["list", "arr", "map"])
-                pool = [x for x in range(nv) if x != v or p == "."]
-                items = [f"v{rng.choice(pool)}" if rng.random() < 0.6 else rand_lit(rng) for _ in range(rng.randrange(0, 4))]
+                # the temporary may hold copies of the destination itself, at any path (it is built before the walk)
+                items = [(f"v{v}" if rng.random() < 0.35 else f"v{rng.randrange(nv)}") if rng.random() < 0.6 else rand_lit(rng)
+                         for _ in range(rng.randrange(0, 4))]
                 if kind == "map":
                     items = [x for it in items for x in (hexs(rng.choice(KEYS)), it)]
                 leaf = f"set {kind} " + " ".join(items)
@@ -697,6 +698,7 @@ SMALL_OPS = [
     "mut 0 . aapp v1", "mut 1 a0 set b1", "mut 0 . mput 6b v1", "mut 1 m6b lapp i3", "mut 1 . touch 10", "mut 1 . sapp 62",
     "mut 0 . set list v0 v1", "mut 0 . set s31", "get 2 0 l0", "get 0 0 l0", "get 1 1 m6b", "mut 0 . lrem 0", "mut 1 l0/l0 set u5",
     "new 2 q18446744073709549568", "new 1 d43efffffffffffff",     # 2^64 - 2048 and the double it converts to exactly
+    "mut 0 l0 set list v0 i3",                                    # a temporary holding a copy of the destination, assigned below its root
 ]
 
 
@@ -749,7 +751,7 @@ def histories_for(ctx):
 ASSUMPTIONS = [
     "doubles are opaque bit patterns in the theorems; NaN is excluded where the property excludes it (eq_copy)",
     "atoi/strtoul/atoll/strtoull/atof (incl. hexadecimal floats)/printf behave as glibc on LP64 in the C locale; a double->integer cast out of range is undefined (printed `?`, not compared)",
-    "precondition of a mutation through a mutable accessor of variable v: the source of the element is not v itself (finding self-append); typed container assignment receives a container that is not part of the destination",
+    "precondition of a mutation through a mutable accessor of variable v: the source of the element is not v itself (finding self-append); a typed container assignment receives a temporary built before the accessor chain runs (it may hold copies of v, at any path)",
     "allocation never fails; single thread",
 ]
 
@@ -791,64 +793,6 @@ def probe_self_append(ctx, harness):
                       for k, line, g, exp in failing)
         ctx.violation("a Variant reached through a mutable accessor of v is given v itself: v then contains itself "
                       "(value semantics: it contains a copy of its old value)", txt, signature="self-append")
-
-
-def explore_self_temp(ctx, harness):
-    """`mut v <non-empty path> set <temporary containing v>`: refused by the model's precondition `mutOk` although the real
-    code is correct there (the temporary holds copies made before the accessor chain runs).  These lines are explored on
-    the real code against the value reference only (`mutx`, answered by harness and reference, not by the model)."""
-    rng = ctx.rng
-    hs = []
-    n = 1200 if ctx.tier == "quick" else 20000
-    emitted = 0
-    for _ in range(n):
-        base = gen_history(rng, rng.choice([6, 12, 20]))
-        st, h = Store(), []
-        for op in base:
-            st.apply(op)
-            h.append(op)
-            if rng.random() < 0.35:
-                cands = [v for v in range(NV) if st.v[v][0] in 'LAM' and st.v[v][1]]
-                if not cands:
-                    continue
-                v = rng.choice(cands)
-                pth, _ = rand_path(rng, st.v[v])
-                if pth == ".":
-                    continue
-                kind = rng.choice(["list", "arr", "map"])
-                items = [f"v{v}" if rng.random() < 0.6 else (f"v{rng.randrange(NV)}" if rng.random() < 0.5 else rand_lit(rng))
-                         for _ in range(rng.randrange(1, 4))]
-                if f"v{v}" not in items:
-                    items[0] = f"v{v}"
-                if kind == "map":
-                    items = [x for it in items for x in (hexs(rng.choice(KEYS)), it)]
-                x = f"mutx {v} {pth} set {kind} " + " ".join(items)
-                if st.apply(x):
-                    h.append(x)
-                    emitted += 1
-        hs.append(h)
-    lines, _ = C.flatten(hs)
-    out, rc, err = C.run_lines(harness, lines, timeout=600)
-    ctx.cov["evaluations"] += len(out)
-    segs = C.split_outputs(out, hs)
-    bad = None
-    for h, seg in zip(hs, segs):
-        ref = reference(h)
-        for i, (a, b) in enumerate(zip(seg, ref)):
-            if not line_eq(a, b):
-                bad = (h[:i + 1], a, b)
-                break
-        if bad is None and len(seg) < len(ref):
-            bad = (h[:len(seg) + 1], f"<no output: crash/timeout rc={rc}> {err[-400:]}", ref[len(seg)])
-        if bad:
-            break
-    if bad is None and rc != 0:
-        bad = (hs[-1], f"<harness exit code {rc}> {err[-600:]}", "exit 0 (no sanitizer / leak report)")
-    ctx.cov["self_temp_lines_explored"] = {"histories": len(hs), "mutx_lines": emitted, "compared": "implementation vs value reference",
-                                           "disagreements": 0 if bad is None else 1}
-    if bad:
-        ctx.violation("typed assignment of a temporary that contains the accessed variable, below the root (impl-vs-reference)",
-                      "\n".join(bad[0]) + f"\n# impl    : {bad[1]}\n# expected: {bad[2]}\n")
 
 
 def model_counters(ctx, hs, cap=12000):
@@ -918,7 +862,6 @@ def check(ctx):
         ctx.log(f"{len(hs)} histories, {ctx.cov['evaluations']} op lines, {len(diffs)} disagreement(s)")
         C.report_diffs(ctx, diffs, harness, C.driver_path(DRIVER), reference, line_eq, "variant-ops")
         probe_self_append(ctx, harness)
-        explore_self_temp(ctx, harness)
         model_counters(ctx, hs)
     finally:
         try:
